@@ -33,7 +33,10 @@ ASSUMPTIONS = [
 
 @st.composite
 def _case(draw, tier):
-    nodes, labels = draw(gen.g2_nodes(max_nodes=6, p_fail=0.0, min_gates=1, max_gates=4, p_cycle=0.3, p_signal=0.3))
+    if prob(draw, 0.15):
+        nodes, labels = draw(_chained_gates_in_loop())
+    else:
+        nodes, labels = draw(gen.g2_nodes(max_nodes=6, p_fail=0.0, min_gates=1, max_gates=4, p_cycle=0.3, p_signal=0.3))
     return {
         "nodes": nodes,
         "labels": labels,
@@ -44,6 +47,27 @@ def _case(draw, tier):
         "entry_pick": draw(st.integers(0, 7)),
         "sched": draw(st.lists(st.integers(0, 7), max_size=40)),
     }
+
+
+@st.composite
+def _chained_gates_in_loop(draw):
+    """An outer gate routes to an INNER gate, to a side node or to END; the inner gate picks one of 2-3 branches, one of which
+    rewrites the looped value.  Whenever the outer gate routes away after the value changed, the inner gate is stale but does not run
+    again: its earlier decision is void, and it has decided in this run, so none of its branches may start."""
+    nb = draw(st.integers(2, 3))
+    branches = [f"br{i}" for i in range(nb)]
+    # exactly one branch advances the looped value (several producers of it that reach each other are not accepted as exclusive)
+    nodes = [{"k": "func", "name": b, "params": ["v"], "defaults": {}, "outs": ["v" if i == 0 else f"w{i}"]} for i, b in enumerate(branches)]
+    if nb == 2 and draw(st.booleans()):
+        inner = {"k": "ifelse", "name": "inner", "params": ["v"], "defaults": {}, "t": branches[0], "f": branches[1], "table": draw(st.lists(st.booleans(), min_size=1, max_size=3)),
+                 "default_open": draw(st.booleans())}
+    else:
+        inner = {"k": "route", "name": "inner", "params": ["v"], "defaults": {}, "targets": list(draw(st.permutations(branches))), "fallback": None, "multi": False,
+                 "table": draw(st.lists(st.sampled_from(branches + [None]), min_size=1, max_size=3)), "default_open": draw(st.booleans())}
+    side = {"k": "func", "name": "side", "params": ["v"], "defaults": {}, "outs": ["s"]}
+    outer = {"k": "route", "name": "outer", "params": ["v"], "defaults": {}, "targets": list(draw(st.permutations(["inner", "side", "END"]))), "fallback": None, "multi": False,
+             "table": draw(st.lists(st.sampled_from(["inner", "inner", "side", "END", None]), min_size=2, max_size=4)), "default_open": draw(st.booleans())}
+    return draw(gen.permuted(nodes + [inner, side, outer])), ["cycle", "gate_targets_gate", "chained_gates_in_loop"]
 
 
 def strategy(tier):
